@@ -61,7 +61,11 @@ xv::Scenario queue_scenario(const drv::Program& p, bool keep) {
   s.setup = [=] { *q = A::create(); A::cfg(); if (E::owned) xv::ev("cfg", "owned"); for (auto& o : p.setup) exec(o); };
   s.body = [=](int t) { for (auto& o : p.threads[t]) exec(o); };
   s.finish = [=] {
-    if (!keep) { drv::Op pop; pop.name = "pop"; for (int i = 0; i < 64; i++) { V v{}; xv::call("pop"); bool ok = A::pop(**q, v); xv::ret(ok, ok ? E::id(v) : 0); if (!ok) break; } }
+    if (!keep) {
+      drv::Op pop; pop.name = "pop"; for (int i = 0; i < 64; i++) { V v{}; xv::call("pop"); bool ok = A::pop(**q, v); xv::ret(ok, ok ? E::id(v) : 0); if (!ok) break; }
+      // the drained, quiescent queue must be usable: one more element goes in and comes out again
+      drv::Op last; last.name = "push"; last.a = 60; exec(last); last.name = "pop"; exec(last);
+    }
     xv::ev("ev", "qdtor_begin"); delete *q; *q = nullptr; xv::ev("ev", "qdtor_end");
     xv::ev("quiescent", "end");
   };
